@@ -11,8 +11,13 @@
 unsigned verif_nlog;
 void htp_log(htp_connp_t *connp, const char *file, int line, enum htp_log_level_t level, int code, const char *fmt, ...){ verif_nlog++; }
 static unsigned n_create, n_destroy, n_lzma, n_hookbody; static htp_decompressor_t DEC[6]; static int rc_hook;
-htp_decompressor_t *htp_gzip_decompressor_create(htp_connp_t *connp, enum htp_content_encoding_t format){ assert(n_create<5); htp_decompressor_t *d=&DEC[n_create++]; d->next=NULL; if(format==HTP_COMPRESSION_LZMA) n_lzma++; assert(format==HTP_COMPRESSION_GZIP||format==HTP_COMPRESSION_DEFLATE||format==HTP_COMPRESSION_LZMA); return d; }
-void htp_gzip_decompressor_destroy(htp_decompressor_t *d){ n_destroy++; }
+#ifndef FAILK
+#define FAILK (-1)
+#endif
+static unsigned n_fail, n_calls_create; static unsigned char dead[6], dead_old; static htp_decompressor_t OLD0;
+htp_decompressor_t *htp_gzip_decompressor_create(htp_connp_t *connp, enum htp_content_encoding_t format){ if((int)(n_calls_create++)==FAILK){ n_fail++; return NULL; }   /* C18: the FAILK-th creation fails (allocation failure inside) */
+    assert(n_create<5); htp_decompressor_t *d=&DEC[n_create++]; d->next=NULL; if(format==HTP_COMPRESSION_LZMA) n_lzma++; assert(format==HTP_COMPRESSION_GZIP||format==HTP_COMPRESSION_DEFLATE||format==HTP_COMPRESSION_LZMA); return d; }
+void htp_gzip_decompressor_destroy(htp_decompressor_t *d){ n_destroy++; for(unsigned i=0;i<6;i++) if(d==&DEC[i]){ assert(!dead[i]); dead[i]=1; } }
 htp_status_t htp_gzip_decompressor_decompress(htp_decompressor_t *drec, htp_tx_data_t *d){ return HTP_OK; }
 htp_status_t htp_req_run_hook_body_data(htp_connp_t *c, htp_tx_data_t *d){ n_hookbody++; return rc_hook; }
 htp_status_t htp_res_run_hook_body_data(htp_connp_t *c, htp_tx_data_t *d){ n_hookbody++; return rc_hook; }
@@ -52,6 +57,10 @@ void harness(void){
     TX.response_progress=HTP_RESPONSE_HEADERS; CFG0=CFG;
     htp_status_t rc=htp_tx_state_response_headers(&TX);
     assert(memcmp(&CFG0,&CFG,sizeof CFG)==0);
+    /* C18: whatever happened, nothing that was destroyed is still reachable from the connection (teardown would free it again) */
+    {   unsigned g=0; for(htp_decompressor_t *p=C.out_decompressor;p&&g<6;p=p->next,g++) for(unsigned i=0;i<6;i++) if(p==&DEC[i]) assert(!dead[i]); }
+    if(n_fail) assert(rc==HTP_ERROR);
+    if(!n_fail){
     /* chain as built */
     unsigned chain=0; for(htp_decompressor_t *p=C.out_decompressor;p&&chain<6;p=p->next) if(p!=&OLD) chain++;
     assert(chain==n_create);
@@ -61,6 +70,7 @@ void harness(void){
     if(n_create>0 && stale) assert(n_destroy>=1 && C.out_decompressor!=&OLD);      /* the previous message's decompressor is released before a new chain is built */
     if(n_create>0) for(htp_decompressor_t *p=C.out_decompressor;p;p=p->next) assert(p->callback==htp_tx_res_process_body_data_decompressor_callback);
     VERIF_COVER(rc==HTP_OK, "headers accepted");
+    }
 #endif
     VERIF_WITNESS();
 }
